@@ -16,6 +16,8 @@ structure Hooks (α : Type) where
   fromString? : Option (String → Outcome α) := none
   fromBool?   : Option (Bool → Outcome α) := none
 
+instance {α : Type} : Inhabited (Hooks α) := ⟨{}⟩
+
 namespace Hooks
 variable {α : Type}
 
